@@ -14,15 +14,16 @@ CORE_RULE = ("validator trees generated kind-directed (every constructor, both c
              "input) and non-trivial when it was accepted by a non-trivial validator or rejected below the root")
 
 PROPS: Dict[str, Dict[str, Any]] = {
-    "C01": {"theorems": ["C01_never_raises_partial", "gate_noexn", "unionStep_clean", "seqStep_clean", "seqPre_clean",
-                         "scalarStep_clean", "maybeStep_clean", "knrStep_clean", "userStep_clean", "Safe_list_typed",
-                         "Safe_str_typed", "C05_recursive_terminates", "run_mono"],
-            "level_note": "proved: every run (any fuel, nesting, recursion through Lazy) of a tree made of scalar / equals / "
-                          "none / always / is-dict / list / uniform-tuple / union / optional / maybe / lazy / key-not-required "
-                          "/ user-wrapper nodes whose own predicates do not raise on what their gate lets through ends in "
-                          "Valid or Invalid (side conditions discharged for the typed string and list predicates); sets, "
-                          "n-tuples, maps and records, and termination in general, are decided by the correspondence and "
-                          "the oracle only; D2 / D3 are the open findings where the real code does raise",
+    "C01": {"theorems": ["C01_never_raises_partial", "gate_noexn", "unionStep_clean", "seqStep_clean", "seqStep_clean_set",
+                         "seqPre_clean", "ntupleStep_clean", "mapStep_clean", "recordStep_clean", "scalarStep_clean",
+                         "maybeStep_clean", "knrStep_clean", "userStep_clean", "Safe_list_typed", "Safe_str_typed",
+                         "C05_recursive_terminates", "run_mono"],
+            "level_note": "proved: every run (any fuel, nesting, recursion through Lazy) of a tree of *any* validator kinds whose "
+                          "nodes satisfy their side condition (own predicates / processors do not raise on what the gate lets "
+                          "through; set members and map keys hashable; for maps and records the container level `mapPre` / "
+                          "`recPre` does not raise) ends in Valid or Invalid; side conditions discharged for the typed string and "
+                          "list predicates; termination in general is decided by the correspondence and the oracle only; D2 / "
+                          "D3 are the open findings where the real code does raise",
             "stream": "core", "opts": {"salt": "c01", "special_rate": 0.05},
             "quick_n": 8000, "thorough_n": 200000, "fields": ["out"]},
     "C03": {"theorems": ["loopItems_iff", "ItemsRun.sound", "ItemsRun.complete", "ItemsRun.sorted", "ItemsRun.length",
@@ -205,15 +206,18 @@ PROPS["C11"] = {"theorems": ["C11_scalar", "C11_scalar_schema", "C11_scalar_vali
                              "patHolds_suffix", "PredOK_startsWith", "PredOK_endsWith", "PredOK_regex_partial",
                              "PredOK_notBlank_partial", "C11_optional_schema", "C11_union_schema", "countP_one_of_atMostOne",
                              "C11_list_schema", "C11_ntuple_schema", "PredOK_minItems", "PredOK_maxItems",
-                             "PredOK_uniqueItems_partial"],
-                "modules": ["KodaModel.Properties.C11", "KodaModel.Properties.C11Pat", "KodaModel.Properties.C11Containers"],
-                "level_note": "proved: scalar validators end to end (schema accepts iff validator accepts, any number of "
-                              "predicates, keyword clashes merged under allOf), the pattern reader inverts the pattern "
-                              "writer, per-keyword lemmas, and the schema side of optionals, unions (oneOf = exactly one; = "
-                              "'some' when variants do not overlap), lists / uniform tuples and n-tuples given what the "
-                              "children's schemas decide; `_partial` theorems carry the hypotheses that findings D13 / D14 / "
-                              "D15 violate, each with its witness; maps, records, named recursion and the validator side "
-                              "of the containers are decided by the correspondence and the jsonschema oracle only",
+                             "PredOK_uniqueItems_partial", "C11_tree_partial", "C11_iff_partial", "node_scalar_validator",
+                             "node_list_validator", "node_union_validator", "node_optional_validator",
+                             "predCheck_PredOK", "predCheck_noRaise", "SchemasDecide.count"],
+                "modules": ["KodaModel.Properties.C11", "KodaModel.Properties.C11Pat", "KodaModel.Properties.C11Containers",
+                            "KodaModel.Properties.C11Glue"],
+                "level_note": "proved: `C11_iff_partial` — for every tree (any depth, any width) built from string / integer / float / "
+                              "boolean validators with typed predicates, lists, unions and optionals, and every JSON value, the "
+                              "generated schema accepts the value iff the validator does, under the side conditions `ok` "
+                              "(predicates used on their kind; the agreement conditions findings D13 / D14 / D15 violate, each "
+                              "with its witness); keyword clashes merged under allOf; the pattern reader inverts the pattern "
+                              "writer for every pattern; schema side of n-tuples; maps, records, tuples in the tree theorem and "
+                              "named recursion are decided by the correspondence and the jsonschema oracle only",
                 "run": _run_c11, "replay": _replay_c11,
                 "rule": "validator trees of the JSON-native fragment to depth 3 (scalars with every supported predicate, "
                         "lists / uniform / n-tuples, string-keyed maps, the five record kinds with optional keys and both "
